@@ -453,6 +453,10 @@ class Program(BlockBase):  # R201
             # (via Main_Program0) with a program containing no program
             # statement as this is optional in Fortran.
             result = BlockBase.match(Main_Program0, [], None, reader)
+            if result and content:
+                # Keep what was matched in front of the main program
+                # (comments, includes, directives, earlier program units).
+                return (content + result[0],)
             return result
         except StopIteration:
             # Reader has no more lines.
